@@ -165,7 +165,7 @@ Print Assumptions cancellation_flag_only_by_creator.
 
 (* ---- the timers as data (Batch/ModelTimed.v) ----
 
-   Every step carries two stamps lo <= hi (ns) between which it happened; [cfg] lists f.WaitInterval and
+   Every step carries two stamps lo <= hi (us) between which it happened; [cfg] lists f.WaitInterval and
    f.MaxDuration per Func as configured, [eff_wait] / [eff_maxdur] substitute the defaults (1 ms, 20 ms) for values
    <= 0 as Invoke does.  A group records the earliest instants at which its interval timer (re-armed by every join
    that stops it in time) and its max-duration timer can have fired. *)
@@ -262,7 +262,7 @@ Proof. vm_compute. reflexivity. Qed.
 Definition at_ (t : Z) (l : label) : tlabel := (t, t, l).
 Definition cfg1 : tconfig := [(100, 250)%Z].
 
-(* timers: WaitInterval 100, MaxDuration 250 (ns).  Created at 0; joins at 60 and 120 re-arm the interval timer
+(* timers: WaitInterval 100, MaxDuration 250 (us).  Created at 0; joins at 60 and 120 re-arm the interval timer
    (deadline 220); the interval timer wakes the creator at 220, dispatch at 220 <= 250 and <= 120 + 100. *)
 Example ex_on_time :
   option_map (fun s => (map g_phase (groups (ts s)), map (fun t => (tg_ideadline t, tg_mdeadline t, tg_dispatched t)) (tgs s)))
@@ -287,7 +287,7 @@ Example ex_early_and_late :
   trun cfg1 (tinit [0]) [ at_ 0 (LJoin 0 1 0 false); at_ 60 (LJoin 0 2 0 false); at_ 150 (LWake 0 CInterval) ] = None /\
   (exists s, trun cfg1 (tinit [0]) [ at_ 0 (LJoin 0 1 0 false); at_ 400 (LWake 0 CInterval) ] = Some s) /\
   prun cfg1 (tinit [0]) [ at_ 0 (LJoin 0 1 0 false); at_ 400 (LWake 0 CInterval) ] = None /\
-  (eff_wait [(0, -5)%Z] 0, eff_maxdur [(0, -5)%Z] 0) = (1000000, 20000000)%Z.
+  (eff_wait [(0, -5)%Z] 0, eff_maxdur [(0, -5)%Z] 0) = (1000, 20000)%Z.
 Proof. vm_compute. repeat split; try reflexivity. eexists. reflexivity. Qed.
 
 (* Many panics with a runtime.Error in a group of three: everyone gets the panic error, creator included *)
